@@ -49,7 +49,15 @@ impl Robot {
     pub fn new(p: Parameters, layers: Vec<LayerF>, limits: Option<(Joints, Joints, f64)>) -> Robot {
         let free: Arc<dyn Kinematics> = wrap(&layers, Arc::new(OPWKinematics::new(p)));
         let kin: Arc<dyn Kinematics> = match &limits {
-            Some((f, t, w)) => wrap(&layers, Arc::new(OPWKinematics::new_with_constraints(p, Constraints::new(*f, *t, *w)))),
+            Some((f, t, w)) => {
+                // every second constrained robot obtains its limits through update_range from unrelated ones
+                let c = if (f[0].to_bits() >> 3) & 1 == 0 { Constraints::new(*f, *t, *w) } else {
+                    let mut c = Constraints::new([0.3, -2.0, 1.0, 2.9, -0.2, 0.0], [0.9, -1.0, 1.1, 3.3, 0.2, 0.0], *w);
+                    c.update_range(*f, *t);
+                    c
+                };
+                wrap(&layers, Arc::new(OPWKinematics::new_with_constraints(p, c)))
+            }
             None => wrap(&layers, Arc::new(OPWKinematics::new(p))),
         };
         Robot { p, layers, limits, kin, free }
@@ -79,9 +87,12 @@ impl Robot {
 }
 
 pub fn random_iso(r: &mut StdRng, reach: f64) -> Iso {
+    // one in eight is a pure rotation (no translation), one in eight a pure translation
+    let kind = r.gen_range(0..8);
+    let reach = if kind == 0 { 1e-300 } else { reach };
     let ax = [r.gen_range(-1.0..1.0), r.gen_range(-1.0..1.0), r.gen_range(-1.0..1.0f64)];
     let n = oracle::norm(&ax).max(1e-3);
-    let a = r.gen_range(-PI..PI);
+    let a = if kind == 1 { 0.0 } else { r.gen_range(-PI..PI) };
     let q = nalgebra::UnitQuaternion::from_axis_angle(&nalgebra::Unit::new_normalize(nalgebra::Vector3::new(ax[0] / n, ax[1] / n, ax[2] / n)), a);
     let iso = nalgebra::Isometry3::from_parts(nalgebra::Translation3::new(r.gen_range(-reach..reach), r.gen_range(-reach..reach), r.gen_range(-reach..reach)), q);
     Iso::from_na(&iso)
@@ -177,6 +188,7 @@ fn truth_for(class: &str, p: &mut Parameters, r: &mut StdRng) -> [f64; 6] {
         let mut e: [f64; 6] = std::array::from_fn(|_| r.gen_range(-PI..PI));
         match class {
             "j5-zero" => e[4] = 0.0,
+            "j5-tiny" => e[4] = 10f64.powf(r.gen_range(-12.5..-8.5)) * if r.gen_bool(0.5) { 1.0 } else { -1.0 },
             "j5-pi" => e[4] = PI,
             "stretched" => e[2] = -psi3(p),
             "on-j1-axis" => {
@@ -257,6 +269,17 @@ pub fn instance(sc: &Value, r: &mut StdRng) -> Value {
     p = robots::convention(p, sc["signs"].as_u64().unwrap() as usize, sc["offsets"].as_str().unwrap(), r);
     p.dof = dof;
     if dof == 5 && r.gen_bool(0.5) { p.sign_corrections[5] = 0; }
+    if dof == 5 && r.gen_bool(0.4) {
+        // a robot declared 5-DOF in a parameter file: through to_yaml / from_yaml_file (dof entry at the top level,
+        // or inside the geometric parameters as in the bundled 5-DOF example)
+        let mut text = p.to_yaml();
+        if r.gen_bool(0.5) { text = text.replace("\ndof: 5\n", "\n").replace("  c4: ", "  dof: 5\n  c4: "); }
+        let path = std::env::temp_dir().join(format!("opwv-ik-{}-{}.yaml", std::process::id(), sc["id"]));
+        if std::fs::write(&path, text).is_ok() {
+            if let Some(Ok(q)) = guarded(|| Parameters::from_yaml_file(&path)) { p = q; }
+            let _ = std::fs::remove_file(&path);
+        }
+    }
     let e = truth_for(pose_class, &mut p, r);
     let mut q = from_effective(&p, &e);
     if dof == 5 && !five_entry && entry == "inverse" { q[5] = 0.0; } // a 5-DOF robot's plain inverse answers with J6 = 0
@@ -312,9 +335,24 @@ pub fn instance(sc: &Value, r: &mut StdRng) -> Value {
             v
         }
         "centered" => CONSTRAINT_CENTERED,
+        // a previous vector that is itself outside the limits in J1/J2 (the answers need not be)
+        "off-limits" => std::array::from_fn(|i| if i < 2 { q[i] + if r.gen_bool(0.5) { 0.6 } else { -0.6 } } else { q[i] + r.gen_range(-0.05..0.05) }),
         _ => q,
     };
-    let j6 = if r.gen_bool(0.5) { q[5] } else { r.gen_range(-3.0..3.0) };
+    // far beyond any sensible range (soundness only): whole turns of the order of 1e9..1e10 rad
+    let prev: Joints = if prev_class == "far" && r.gen_bool(0.12) {
+        prev_in_range = false;
+        std::array::from_fn(|i| q[i] + (r.gen_range(1.0e8..2.0e9f64)).round() * 2.0 * PI * if r.gen_bool(0.5) { 1.0 } else { -1.0 })
+    } else { prev };
+    let mut j6 = if r.gen_bool(0.5) { q[5] } else { r.gen_range(-3.0..3.0) };
+    let mut prev = prev;
+    // a non-finite J6 request must never come back: the answer is empty or finite
+    let nonfinite_j6 = five && pose_class == "generic" && r.gen_bool(0.08);
+    if nonfinite_j6 {
+        let bad = [f64::NAN, f64::INFINITY, f64::NEG_INFINITY][r.gen_range(0..3)];
+        j6 = bad;
+        if prev_class != "centered" { prev[5] = bad; }
+    }
     // calls
     let ans = call(robot.kin.as_ref(), entry, &pose, &prev, j6);
     let base = json!({"ev": "ik", "sc": sc["id"], "entry": entry, "dof": dof, "geom": sc["geom"], "stack": sc["stack"], "pose_class": pose_class,
@@ -327,7 +365,7 @@ pub fn instance(sc: &Value, r: &mut StdRng) -> Value {
     };
     let centered = prev_class == "centered";
     let caller_j6 = if entry == "inverse_5dof" { j6 } else if entry == "inverse" { 0.0 } else { prev[5] };
-    let j6_equal: Vec<bool> = if five {
+    let j6_equal: Vec<bool> = if five && !nonfinite_j6 {
         ans.iter().map(|a| a[5].to_bits() == caller_j6.to_bits() || (a[5] == caller_j6) ||
             (centered && { let d = (a[5] - caller_j6).rem_euclid(2.0 * PI); d.min(2.0 * PI - d) < 1e-12 })).collect()
     } else { vec![] };
@@ -359,6 +397,8 @@ pub fn instance(sc: &Value, r: &mut StdRng) -> Value {
     ev.insert("centres".into(), json!(au6(&c)));
     ev.insert("lim".into(), json!(robot.limits.is_some()));
     ev.insert("pgram".into(), json!(pgram));
+    ev.insert("j6_finite".into(), json!(!nonfinite_j6));
+    ev.insert("huge".into(), json!(prev.iter().any(|x| x.is_finite() && x.abs() > 1.0e6)));
     ev.insert("from".into(), json!(lf));
     ev.insert("to".into(), json!(lt));
     ev.insert("answers".into(), json!(ans.iter().map(|a| answer_facts(&robot, &want, a)).collect::<Vec<_>>()));
@@ -403,7 +443,7 @@ pub fn record(scenarios: &str, output: &str) {
     for sc in &scs {
         // focus filters (a check asks only for the scenarios its clauses can speak about)
         let keep = match focus.as_str() {
-            "C02" => sc["entry"] == "inverse" && sc["dof"] == 6,
+            "C02" => (sc["entry"] == "inverse" && sc["dof"] == 6) || (sc["limits"] == "none" && sc["pose"] == "generic" && !sc["stack"].as_str().unwrap().contains("pgram")),
             "C04" => sc["entry"].as_str().unwrap().contains("continuing"),
             "C06" => sc["entry"].as_str().unwrap().contains("5dof") || sc["dof"] == 5,
             "C08" => sc["limits"] != "none",
@@ -459,7 +499,7 @@ pub fn record_follow(output: &str) {
             let want = robot.ofk(q);
             let ans = call(robot.kin.as_ref(), "inverse_continuing", &want.to_na(), &prev, 0.0);
             let mut ev = json!({"ev": "follow", "k": k + 1, "entry": "inverse_continuing", "dof": 6, "geom": class, "stack": stack_class,
-                "pose_ok": true, "reach": "yes", "pgram": false, "prev": au6(&prev), "prev_in_range": true, "j6_equal": [], "w16": 0, "centres": [0,0,0,0,0,0],
+                "pose_ok": true, "reach": "yes", "pgram": false, "j6_finite": true, "huge": false, "prev": au6(&prev), "prev_in_range": true, "j6_equal": [], "w16": 0, "centres": [0,0,0,0,0,0],
                 "lim": false, "from": [0,0,0,0,0,0], "to": [0,0,0,0,0,0], "plain": [], "free": [], "resolve": [], "twin_shift5": 0, "fwd_n": 0,
                 "truth": {"known": true, "q": au6(q), "nonsingular": true, "wrist_ok": true, "realised_by_prev": false}});
             match ans {
